@@ -562,8 +562,13 @@ def run_symbolic(ctx, fn, sym_args, hooks=None, fresh_normals=None):
     """Trace fn (real library code) at the shapes of sym_args and interpret the jaxpr symbolically.
     Returns (outs_tree, interp, closed_jaxpr).  fn may return any pytree of arrays / None."""
     place = [jax.ShapeDtypeStruct(a.shape, jnp.float64) if is_sym(a) else a for a in sym_args]
+    def fn_eager_static(*a):
+        # index arithmetic on concrete values (arange, setxor1d, ...) is evaluated eagerly, exactly as
+        # in a user's eager call; everything that depends on the symbolic inputs is traced
+        with jax.ensure_compile_time_eval():
+            return fn(*a)
     try:
-        cj, out_shape = jax.make_jaxpr(fn, return_shape=True)(*place)
+        cj, out_shape = jax.make_jaxpr(fn_eager_static, return_shape=True)(*place)
     except Exception as ex:   # the real code raised while being traced
         raise TraceRaised(ex) from ex
     it = Interp(ctx, hooks=hooks)
